@@ -454,6 +454,7 @@ def run(chk):
         if d_str(o) != q:
             chk.mismatch('quote(atom) differs', case, q, d_str(o))
     kernel_crosscheck(chk, constant)
+    embedded_stream(chk)
     if constant.evaluate(None) is not None or constant.type(None).value != 'Null':
         chk.fail('null', 'evaluate(None) / type(None) is not None / Null', {'text': None})
     out = common.run_driver('const', [[5, []]])
@@ -495,6 +496,35 @@ def kernel_crosscheck(chk, constant):
 def _run_job(job):
     fn, arg = job
     return fn(arg)
+
+
+def embedded_stream(chk):
+    """quote(x) written as a concept / attribute value of a PENMAN text (with and without an alignment after it): the
+    text must decode, the constant must come back as exactly quote(x), and evaluate to x."""
+    import penman
+    from penman import constant
+    rng = chk.rng
+    pool = ['', 'a', 'a b', 'say "hi"', '"', '""', '~', '~1', 'see "http://x.org/~kim"', 'x"~1', '\\', 'a\\"', 'tab\there', 'nl\nhere',
+            '(', ')', ':r', '/', '#c', 'é', '\u2028', '\x85', '😀', 'a"b"c~e.2', '" ~ "', '\\"~3']
+    for i in range(300 if chk.tier == 'quick' else 3000):
+        pool.append(''.join(rng.choice('ab"\\~ ()/:#1,.\t') for _ in range(rng.randint(1, 8))))
+    for x in pool:
+        q = constant.quote(x)
+        for text in ('(a / %s)' % q, '(a / b :op1 %s)' % q, '(a / b :op1 %s~e.5 :op2 c)' % q, '(a / b :op1~1 %s~2)' % q,
+                     '(a / %s~7 :name (n / name :op1 %s))' % (q, q)):
+            case = {'stream': 'embedded', 'x': x, 'text': text}
+            chk.count(('embedded', text))
+            try:
+                g = common.timed(penman.decode, text, seconds=5)
+            except Exception as e:       # noqa
+                chk.fail('embedded', f'a text holding quote(x) does not decode: {type(e).__name__}: {str(e)[:80]}', case)
+                continue
+            consts = [t[2] for t in g.triples if isinstance(t[2], str) and t[2].startswith('"')]
+            if not consts or any(c != q for c in consts):
+                chk.fail('embedded', f'the string constant comes back as {consts!r}, not quote(x) = {q!r}', case)
+            elif any(constant.evaluate(c) != x for c in consts):
+                chk.fail('embedded', 'the decoded constant does not evaluate to the original string', case)
+    chk.stat('embedded-texts', len(pool) * 5)
 
 
 def replay(obj):
